@@ -2,8 +2,9 @@
    For z = a + I*b (a, b real):
      sin, cos, sinh, cosh : the rules are the defining formulas of RewriteSpec.v;
      tan  z = ( sin 2a + I sinh 2b) / (cos 2a + cosh 2b)
-     cot  z = (-sin 2a + I sinh 2b) / (cos 2a - cosh 2b)      (the code after fix-1; the shipped
-              rule had -sinh 2b in the imaginary part: [ri_cot_shipped_refuted])
+     cot  z = (-sin 2a + I sinh 2b) / (cos 2a - cosh 2b)      (the CORRECT formula; the code has
+              -sinh 2b in the imaginary part, which is wrong: [ri_cot_shipped_refuted], known
+              finding C36/ri-value:cot)
      tanh z = (sinh a cosh a + I sin b cos b) / (sinh^2 a + cos^2 b)
      coth z = (sinh a cosh a - I sin b cos b) / (sinh^2 a + sin^2 b)
    each wherever the denominator used by the rule is not zero; the function is then defined there. *)
@@ -131,7 +132,7 @@ Proof.
   - change (cfun1 TC_Cosh (a, b)) with (Some (ccosh (a, b))). unfold ccosh. cbn [fst snd]. do 2 f_equal. ring.
 Qed.
 
-(* the rule as shipped (imaginary part negated) is wrong, e.g. at z = I *)
+(* the rule as the code has it (imaginary part negated) is wrong, e.g. at z = I *)
 Theorem ri_cot_shipped_refuted : exists a b : R,
   cos (2 * a) - cosh (2 * b) <> 0 /\
   cfun1 TC_Cot (a, b) <> Some (- (sin (2 * a) / (cos (2 * a) - cosh (2 * b))),
